@@ -277,8 +277,9 @@ pub fn time() -> BoxedStrategy<RVal> {
         2 => (0u32..1_000_000).prop_map(|us| us * 1000),
         2 => 0u32..1_000_000_000,
     ];
-    (0u32..24, 0u32..60, 0u32..60, frac)
-        .prop_map(|(h, m, s, n)| RVal::Time(h, m, s, n))
+    // now and then a leap second: chrono holds it as second 59 with 1e9..2e9 nanoseconds and prints ..:60
+    (0u32..24, 0u32..60, 0u32..60, frac, 0u8..40)
+        .prop_map(|(h, m, s, n, leap)| if leap == 0 { RVal::Time(h, m, 59, 1_000_000_000 + n) } else { RVal::Time(h, m, s, n) })
         .boxed()
 }
 
